@@ -94,6 +94,11 @@ def e2e_round(binp, d, how, hold_s):
     ends; then the operator enters ONE line; the program must exit by itself with status 0."""
     os.makedirs(d, exist_ok=True)
     argv = [binp, "-one-shell", "-listen-address", "127.0.0.1:0", "-tls-certificate-cache", os.path.join(d, "cert.txtar")]
+    if how == "tab":                                   # a Ctrl+I / Tab source of many lines
+        with open(os.path.join(d, "many.sh"), "w") as f:
+            for k in range(1500):
+                f.write("f%d() { :; }\n" % k)
+        argv += ["-ctrl-i", os.path.join(d, "many.sh")]
     env = dict(os.environ, HOME=d, XDG_CACHE_HOME=os.path.join(d, "xdg")); env.pop("CURLREVSHELL_LOG", None)
     master, slave = os.openpty()
     fcntl.ioctl(slave, termios.TIOCSWINSZ, struct.pack("HHHH", 40, 200, 0, 0))
@@ -126,7 +131,14 @@ def e2e_round(binp, d, how, hold_s):
         port = int(re.search(rb"https://127\.0\.0\.1:(\d+)/c", out).group(1))
         ctx = ssl.create_default_context(); ctx.check_hostname = False; ctx.verify_mode = ssl.CERT_NONE
         c = ctx.wrap_socket(socket.create_connection(("127.0.0.1", port), timeout=5))
-        c.sendall(b"POST /io HTTP/1.1\r\nHost: h\r\nTransfer-Encoding: chunked\r\n\r\n")
+        cin = None
+        if how == "input-first":                       # two unidirectional streams; the input side will go first, the upload stays open
+            cin = ctx.wrap_socket(socket.create_connection(("127.0.0.1", port), timeout=5))
+            cin.sendall(b"GET /i/e2e HTTP/1.1\r\nHost: h\r\n\r\n")
+            pump(rb"Input connected", 3)
+            c.sendall(b"POST /o/e2e HTTP/1.1\r\nHost: h\r\nTransfer-Encoding: chunked\r\n\r\n")
+        else:
+            c.sendall(b"POST /io HTTP/1.1\r\nHost: h\r\nTransfer-Encoding: chunked\r\n\r\n")
         res["attached"] = pump(rb"ready to go", 5)
         mark = len(out)
         t_end = time.time() + hold_s
@@ -134,22 +146,41 @@ def e2e_round(binp, d, how, hold_s):
             pump(None, min(1.0, max(0.0, t_end - time.time())))
         res["gone_early"] = b"Shell is gone" in out[mark:]
         try:
-            c.sendall(b"14\r\nSTILL-ALIVE-OUTPUT!!\n\r\n")
+            c.sendall(b"15\r\nSTILL-ALIVE-OUTPUT!!\n\r\n")
             res["worked_at_end"] = pump(rb"STILL-ALIVE-OUTPUT!!", 3)
-            if how == "eof":
-                c.sendall(b"0\r\n\r\n")
-            c.close()
+            if how == "quick-line":
+                c.sendall(b"0\r\n\r\n"); c.close()
+            elif how == "input-first":
+                cin.close()                            # (c, the upload, is left open: something still holds the shell's stdout)
+            else:
+                if how in ("eof", "tab"):
+                    c.sendall(b"0\r\n\r\n")
+                c.close()
         except OSError as ex:                         # the server has torn the attached shell down
             res["send_error"] = repr(ex)
-        pump(None, 0.4)
+        # net/http's Shutdown notices that the shell's connection has ended by polling (interval grows to 500 ms while the shell lives):
+        # a line entered inside that window is the subject of known finding one-shell-line-within-shutdown-poll ("quick" rounds below)
+        pump(None, 0.03 if how == "quick-line" else (0.4 if hold_s < 1 else 1.2))
+        if how == "tab":
+            os.write(master, b"\t"); pump(None, 0.4)  # Tab: insert the source (nobody is there to take it any more)
         os.write(master, b"\r")                      # the operator's next entered line
-        t0 = time.time()
-        while time.time() - t0 < 6:
-            pump(None, 0.1)
-            p, st = os.waitpid(pid, os.WNOHANG)
-            if p:
-                res["rc"] = os.waitstatus_to_exitcode(st); pid = 0
-                break
+        def wait_exit(secs):
+            nonlocal pid
+            t0 = time.time()
+            while time.time() - t0 < secs:
+                pump(None, 0.1)
+                p, st = os.waitpid(pid, os.WNOHANG)
+                if p:
+                    res["rc"] = os.waitstatus_to_exitcode(st); pid = 0
+                    return True
+            return False
+        if how == "quick-line":
+            if not wait_exit(1.5):
+                res["first_line_did_not_exit"] = True
+                os.write(master, b"\r")               # a second line: now it must
+                wait_exit(6)
+        else:
+            wait_exit(6)
     except RuntimeError:
         pass
     except Exception as ex:
@@ -170,7 +201,8 @@ def e2e_stream(run):
         return
     # one long-lived shell (longer than any plausible 'grace period' for closing the listener) and a batch of short ones
     long_hold = 33 if run.tier == "quick" else 95
-    plan = [("eof" if k % 2 else "drop", 0.3) for k in range(10 if run.tier == "quick" else 60)] + [("eof", long_hold)]
+    plan = [(["eof", "drop", "input-first", "tab"][k % 4], 0.3) for k in range(12 if run.tier == "quick" else 60)] + [("eof", long_hold)]
+    plan += [("quick-line", 4.0)] * (3 if run.tier == "quick" else 8)
     import concurrent.futures as cf
     with cf.ThreadPoolExecutor(max_workers=12) as ex:
         rs = list(ex.map(lambda kp: e2e_round(binp, os.path.join(run.rundir, "e2e%d" % kp[0]), *kp[1]), list(enumerate(plan))))
@@ -181,6 +213,9 @@ def e2e_stream(run):
             why = ("harness", "the scenario could not be set up: %s" % (r.get("error") or "shell did not attach"))
         elif r["gone_early"] or not r["worked_at_end"]:
             why = ("one-shell-shell-disturbed", "with -one-shell the attached shell did not keep working undisturbed for %s s after the listener closed" % r["hold_s"])
+        elif r.get("first_line_did_not_exit") and r["rc"] == 0:
+            why = ("one-shell-line-within-shutdown-poll", "a line entered 30 ms after a shell that had lived for 4 s ended was consumed without the program "
+                   "exiting (the next line did end it)")
         elif r["rc"] != 0:
             why = ("one-shell-no-exit", "after the one shell ended the program did not exit with success at the operator's next entered line (status %s; 999 = had to be killed)" % r["rc"])
         if why:
@@ -188,11 +223,13 @@ def e2e_stream(run):
     for (key, what), r in bad[:3]:
         if key != "harness":
             run.violation(key, what, {"stream": "e2e", "input": {"how_the_shell_ends": r["how"], "attached_for_s": r["hold_s"]}, "detail": r})
+    bad = [b for b in bad if b[0][0] not in {k["key"] for k in vlib.known_findings()["known"] if k["property"] == run.pid}]
     run.oblige("end to end: %d runs of the real binary with -one-shell (one shell attached for %d s, the others briefly; ended by EOF or by dropping the "
                "connection): the shell works until it ends, then ONE entered line makes the program exit with status 0" % (len(rs), long_hold),
                not bad, json.dumps([dict(r, why=w[1]) for w, r in bad[:3]])[:3000])
     run.stream("e2e", len(rs), len(rs), "real binary under a pty with -one-shell, real TLS /io client; one shell stays attached for %d s (traffic at the "
-               "end must still flow, no 'gone' notice before), then each shell ends (chunked EOF or dropped connection) and the operator enters one "
+               "end must still flow, no 'gone' notice before), then each shell ends (chunked EOF, dropped connection, /i closed first with /o's upload left "
+               "open, or EOF followed by Tab with a 1500-line -ctrl-i source) and the operator enters one "
                "empty line: exit status 0 within 6 s" % long_hold, [{k: v for k, v in rs[0].items() if k != "output_tail"}],
                {"holds_s": sorted({r["hold_s"] for r in rs}), "statuses": sorted({str(r["rc"]) for r in rs})})
 
